@@ -10,9 +10,10 @@ demo=$(ls lib/examples/ 2>/dev/null | grep -i demo | head -1); ex=${demo%.rs}
 echo "## worktree $wt, patch:"; git diff -- lib/src > /tmp/seed_$pid.diff; cat /tmp/seed_$pid.diff
 echo "## tests with patch"; cargo test --workspace --offline 2>&1 | grep -E "^test result|FAILED|panicked" 
 echo "## demo with patch"; cargo run --offline -q -p geo-booleanop --example $ex 2>&1 | tail -5; echo "demo_exit_with_patch=${PIPESTATUS[0]}"
-git stash push -q -- lib/src
+# (not `git stash`: refs/stash is shared by all worktrees of the repository and concurrent seeders pop each other's entries)
+git checkout -q -- lib/src
 echo "## demo without patch"; cargo run --offline -q -p geo-booleanop --example $ex 2>&1 | tail -3; echo "demo_exit_without_patch=${PIPESTATUS[0]}"
-git stash pop -q
+git apply /tmp/seed_$pid.diff
 } > $dst/verify.log 2>&1
 cp /tmp/seed_$pid.diff $dst/patch.diff; cp lib/examples/$demo $dst/ 2>/dev/null
 grep -E "test result|demo_exit" $dst/verify.log
